@@ -339,8 +339,13 @@ impl<'a> TermGen<'a> {
         if depth <= 1 || self.rng.chance(1, 3) {
             return self.leaf(scope);
         }
-        let w: &[u32] = if self.p.binders { &[3, 5, 3, 4, 2, 1, 1] } else { &[3, 5, 3, 0, 0, 0, 1] };
+        let w: &[u32] = if self.p.binders { &[3, 5, 3, 4, 2, 1, 1, 1] } else { &[3, 5, 3, 0, 0, 0, 1, 0] };
         match self.rng.weighted(w) {
+            7 => {
+                let a = self.term(depth - 1, scope);
+                let (x, inner) = self.enter_binder(scope);
+                Tm::node("h", vec![], vec![(vec![], a), (vec![x], self.term(depth - 1, &inner))])
+            }
             6 => {
                 let a = self.term(depth - 1, scope);
                 let b = if self.rng.chance(1, 3) { a.clone() } else { self.term(depth - 1, scope) };
